@@ -375,13 +375,20 @@ def pair_indices(ctx, res, rule):
                 continue
             mp = m[0]
             mclo = T.peel(mp["args"][0])
-            if T.shortened(T.render(mp["recv"])):
-                res.add(Finding(rule, fn, "splice-complete", "the kept child markers are spliced through `%s`: a kept child's marker is dropped or moved" % T.render(mp["recv"])[-60:], loc=T.loc(n)))
+            rr = T.render(mp["recv"])
+            # `xs.into_iter().skip(a).take(b - a)` is the window `xs[a..b]` taken by value
+            win = re.match(r"^(\w+)\.(?:into_iter|iter)\(\)\.skip\((\w+)\)\.take\(\((\w+) - (\w+)\)\)$", rr)
+            if win and win.group(2) == win.group(4):
+                pass
+            elif T.shortened(rr):
+                res.add(Finding(rule, fn, "splice-complete", "the kept child markers are spliced through `%s`: a kept child's marker is dropped or moved" % rr[-60:], loc=T.loc(n)))
                 continue
             # slice offset: child_markers[a..b]
             idxs = [x for x in T.nodes(mp["recv"], "index")]
             off = None
-            if idxs:
+            if win and win.group(2) == win.group(4):
+                off, hi = win.group(2), win.group(3)
+            elif idxs:
                 rng = T.peel(idxs[0]["idx"])
                 if rng.get("k") == "struct":
                     f = {x["name"]: x["e"] for x in rng["fields"]}
